@@ -210,7 +210,13 @@ class Options:
 
     @classmethod
     def initialize(cls):
-        options = {k: v for k, v in cls.__dict__.items() if k in cls._option_names}
+        # the options declared by the class and by its base classes (a class-style Options may extend another one):
+        # what is inherited is an explicit setting like the class's own, with everything it implies
+        options = {}
+        for base in reversed(cls.__mro__):
+            if base is Options or not isinstance(base, type) or not issubclass(base, Options):
+                continue
+            options.update({k: v for k, v in base.__dict__.items() if k in cls._option_names})
         return cls(**options)
 
     @property
